@@ -187,7 +187,10 @@ Section Compiler.
                   else ([], st)
       | None => ([], st)
       end in
-    (i1 ++ (if align && is_none (f_off f) then [IAlignTo (field_align c f)] else []), st1).
+    (* the run-time alignment leaves the stream where the start of the structure decides: the position is not known afterwards *)
+    if align && is_none (f_off f)
+    then (i1 ++ [IAlignTo (field_align c f)], mkGS (g_off st1) (g_block st1) (g_pbits st1) (g_btype st1) (g_brem st1) (g_roll st1) false)
+    else (i1, st1).
   Definition has_block (st : gstate) : bool := match g_block st with [] => false | _ => true end.
   Definition set_known (st : gstate) (k : bool) : gstate := mkGS (g_off st) (g_block st) (g_pbits st) (g_btype st) (g_brem st) (g_roll st) k.
 
